@@ -20,6 +20,7 @@ GROUPS = [
     dict(name='sp_receive', tu='unbounded.c', harness='h_sprecv', mode='H', loop_contracts=True, defs=LF, functions=['fiber_unbounded_sp_channel_receive']),
     dict(name='sp_try_receive', tu='unbounded.c', harness='h_sptry', mode='H', defs=LF, functions=['fiber_unbounded_sp_channel_try_receive']),
     dict(name='multi_send', tu='multi.c', harness='h_send', mode='H', loop_contracts=True, defs=LF, functions=['fiber_multi_channel_send', 'fiber_multi_channel_internal_wait', 'fiber_multi_channel_internal_wake'], bounded=True, bound=RING),
+    dict(name='lemmas', tu='lemmas.c', kind='lemmas', harness='', no_native='pure lemma'),
     dict(name='multi_receive', tu='multi.c', harness='h_receive', mode='H', loop_contracts=True, defs=LF, functions=['fiber_multi_channel_receive', 'fiber_multi_channel_internal_wait', 'fiber_multi_channel_internal_wake'], bounded=True, bound=RING),
 ]
 TRUSTED = ['mpsc_fifo_push/trypop, spsc_fifo_push/trypop: by contract here (linearizable FIFO; C17, C18)', 'fiber_mutex_lock/unlock: by contract (mutual exclusion; C05)',
